@@ -1,5 +1,4 @@
 import Indi.Properties.C08
-import Indi.Properties.Decisions
 #print axioms Indi.Sys.C08_codec
 #print axioms Indi.Sys.C08_codec_chars
 #print axioms Indi.Sys.C08_codec_length
@@ -9,5 +8,3 @@ import Indi.Properties.Decisions
 #print axioms Indi.Sys.Ex08.C08_publish_needs_format
 #print axioms Indi.Sys.Ex08.C08_publish_needs_distinct_names
 #print axioms Indi.Sys.Ex08.C08_publish_needs_address
-#print axioms Indi.Decisions.routerDeliver_agrees
-#print axioms Indi.Decisions.routerIsBlob_agrees
